@@ -3,6 +3,7 @@
 PROP = dict(
     lean_modules=["Octo.Props.C26"],
     gen=["wire"],
+    needs_binary=True,
     required_theorems=[],
     corr_skip=lambda op, impl, model: model == "nomodel",
     rule="wip",
